@@ -1,55 +1,154 @@
 (* C17  Endpoints move exactly N octets in order whatever the driver does.
-   Statements only; proofs in Proof/EndpointsLemmas.v; model Model/Endpoints.v (scripted drivers:
-   every driver call consumes one behaviour event Give k | Zero | Intr | Again | Fail e).
-   Proved here: the source and sink sides (get/put, at-most variants, refusal of invalid counts) for
-   EVERY script, octet- and chunk-style drivers.  The source-to-sink plumbing functions are modelled
-   (the sts functions of Model/Endpoints.v) and tied by correspondence only - see DESIGN.md C17 (partial). *)
-From Ufw Require Import Base.Bits Base.Errno Model.Endpoints Proof.EndpointsLemmas.
+   Statements only (printed by Coq from the lemmas they are closed with); proofs in Proof/EndpointsLemmas.v, Proof/EndpointsTotal.v;
+   model Model/Endpoints.v (scripted drivers: every driver call consumes one behaviour event Give k | Zero | Intr | Again | Fail e; behind the
+   script the driver delivers what is asked until the stream ends).
+   Proved for EVERY script, octet- and chunk-style drivers: the get/put sides and their at-most variants incl. termination of the retry loops;
+   the per-octet, counted and draining source-to-sink plumbing without auxiliary buffer for every source script and every sink that accepts
+   or fails hard.  Correspondence only (partial): the plumbing variants with an auxiliary buffer, sinks that return 0 / EINTR / EAGAIN on a
+   single octet inside the plumbing (the octet already taken from the source is dropped there: outside the stated domain). *)
+From Ufw Require Import Base.Bits Base.Errno Model.Endpoints Proof.EndpointsLemmas Proof.EndpointsTotal.
+From Coq Require Import Lia.
 Local Open Scope N_scope.
 
-(* reading N octets: what is delivered followed by what the driver still holds is the original stream
-   (no loss, duplication, reordering); success = exactly the next N octets; EINTR/EAGAIN never surface *)
-Theorem C17_get : forall s n r d s', source_get_chunk s n = Some (r, d, s') ->
-  d ++ s_stream s' = s_stream s /\
-  (forall c, r = DOk c -> c = n /\ N.of_nat (length d) = n /\ d = firstn (N.to_nat n) (s_stream s)) /\
-  (forall e, r = DErr e -> is_retry e = false).
-Proof. exact get_chunk_exact. Qed.
+(* reading N octets: what is delivered followed by what the driver still holds is the original stream (no loss, duplication, reordering); success = exactly the next N octets; EINTR/EAGAIN never surface *)
+Theorem C17_get :
+  forall (s : src) (n : N) (r : dres) (d : list N) (s' : src),
+         source_get_chunk s n = Some (r, d, s') ->
+         d ++ s_stream s' = s_stream s /\
+         (forall c : N, r = DOk c -> c = n /\ N.of_nat (length d) = n /\ d = firstn (N.to_nat n) (s_stream s)) /\
+         (forall e : errno, r = DErr e -> is_retry e = false).
+Proof. exact (@get_chunk_exact). Qed.
 Print Assumptions C17_get.
 
-Theorem C17_get_invalid : forall s n, n = 0 \/ SSIZE_MAX < n ->
-  source_get_chunk s n = Some (DErr EINVAL, [], s).
-Proof. exact get_chunk_invalid. Qed.
+(* ... and it always returns, whatever the driver does *)
+Theorem C17_get_terminates :
+  forall (s : src) (n : N), source_get_chunk s n <> None.
+Proof. exact (@get_chunk_total). Qed.
+Print Assumptions C17_get_terminates.
+
+(* N = 0 or N > SSIZE_MAX is refused without a driver call *)
+Theorem C17_get_invalid :
+  forall (s : src) (n : N), n = 0 \/ SSIZE_MAX < n -> source_get_chunk s n = Some (DErr EINVAL, [], s).
+Proof. exact (@get_chunk_invalid). Qed.
 Print Assumptions C17_get_invalid.
 
-Theorem C17_get_atmost : forall s n r d s', source_get_chunk_atmost s n = Some (r, d, s') ->
-  d ++ s_stream s' = s_stream s /\ (forall c, r = DOk c -> N.of_nat (length d) = c /\ c <= n).
-Proof. exact get_chunk_atmost_bound. Qed.
+(* the at-most variant never delivers more than asked and reports the count delivered *)
+Theorem C17_get_atmost :
+  forall (s : src) (n : N) (r : dres) (d : list N) (s' : src),
+         source_get_chunk_atmost s n = Some (r, d, s') ->
+         d ++ s_stream s' = s_stream s /\ (forall c : N, r = DOk c -> N.of_nat (length d) = c /\ c <= n).
+Proof. exact (@get_chunk_atmost_bound). Qed.
 Print Assumptions C17_get_atmost.
 
 (* writing N octets: what reached the sink is a prefix of the data; success = all N, in order *)
-Theorem C17_put : forall k xs n r k', sink_put_chunk k xs n = Some (r, k') ->
-  exists sent, k_got k' = k_got k ++ sent /\
-    (exists rest, firstn (N.to_nat n) xs = sent ++ rest) /\
-    (forall c, r = DOk c -> c = n /\ sent = firstn (N.to_nat n) xs) /\
-    (forall e, r = DErr e -> is_retry e = false).
-Proof. exact put_chunk_exact. Qed.
+Theorem C17_put :
+  forall (k : snk) (xs : list N) (n : N) (r : dres) (k' : snk),
+         sink_put_chunk k xs n = Some (r, k') ->
+         exists sent : list N,
+           k_got k' = k_got k ++ sent /\
+           (exists rest : list N, firstn (N.to_nat n) xs = sent ++ rest) /\
+           (forall c : N, r = DOk c -> c = n /\ sent = firstn (N.to_nat n) xs) /\
+           (forall e : errno, r = DErr e -> is_retry e = false).
+Proof. exact (@put_chunk_exact). Qed.
 Print Assumptions C17_put.
 
-Theorem C17_put_invalid : forall k xs n, n = 0 \/ SSIZE_MAX < n ->
-  sink_put_chunk k xs n = Some (DErr EINVAL, k).
-Proof. exact put_chunk_invalid. Qed.
+(* ... and it always returns *)
+Theorem C17_put_terminates :
+  forall (k : snk) (xs : list N) (n : N), sink_put_chunk k xs n <> None.
+Proof. exact (@put_chunk_total). Qed.
+Print Assumptions C17_put_terminates.
+
+(* N = 0 or N > SSIZE_MAX is refused *)
+Theorem C17_put_invalid :
+  forall (k : snk) (xs : list N) (n : N),
+         n = 0 \/ SSIZE_MAX < n -> sink_put_chunk k xs n = Some (DErr EINVAL, k).
+Proof. exact (@put_chunk_invalid). Qed.
 Print Assumptions C17_put_invalid.
 
-Theorem C17_put_atmost : forall k xs r k', sink_put_chunk_atmost k xs = Some (r, k') ->
-  exists sent, k_got k' = k_got k ++ sent /\ (exists rest, xs = sent ++ rest) /\
-               (forall c, r = DOk c -> sent = firstn (N.to_nat c) xs /\ c <= N.of_nat (length xs)) /\
-               (forall e, r = DErr e -> is_retry e = true -> sent = []).
-Proof. exact once_put_spec. Qed.
+(* the at-most variant *)
+Theorem C17_put_atmost :
+  forall (k : snk) (xs : list N) (r : dres) (k' : snk),
+         once_sink_put_chunk k xs = Some (r, k') ->
+         exists sent : list N,
+           k_got k' = k_got k ++ sent /\
+           (exists rest : list N, xs = sent ++ rest) /\
+           (forall c : N, r = DOk c -> sent = firstn (N.to_nat c) xs /\ c <= N.of_nat (length xs)) /\
+           (forall e : errno, r = DErr e -> is_retry e = true -> sent = []).
+Proof. exact (@once_put_spec). Qed.
 Print Assumptions C17_put_atmost.
 
-(* non-vacuity: a chunk driver that gives 2, then nothing, is interrupted, then gives the rest *)
+(* the at-most variants return *)
+Theorem C17_atmost_terminate :
+  forall (s : src) (n : N), once_source_get_chunk s n <> None.
+Proof. exact (@once_get_total). Qed.
+Print Assumptions C17_atmost_terminate.
+
+Theorem C17_atmost_put_terminates :
+  forall (k : snk) (xs : list N), once_sink_put_chunk k xs <> None.
+Proof. exact (@once_put_total). Qed.
+Print Assumptions C17_atmost_put_terminates.
+
+(* source-to-sink, counted: exactly the next n octets reach the sink in order, or an error is returned and what reached the sink is a prefix of the stream (at most the one octet in flight is lost) *)
+Theorem C17_plumbing_counted :
+  forall (s : src) (k : snk) (n : N) (r : dres) (s' : src) (k' : snk),
+         steady k ->
+         sts_n s k n = Some (r, s', k') ->
+         exists moved lost : list N,
+           s_stream s = moved ++ lost ++ s_stream s' /\
+           k_got k' = k_got k ++ moved /\
+           (length lost <= 1)%nat /\
+           (forall t : N,
+            r = DOk t -> t = n /\ moved = firstn (N.to_nat n) (s_stream s) /\ N.of_nat (length moved) = n /\ lost = []).
+Proof. exact (@sts_n_spec). Qed.
+Print Assumptions C17_plumbing_counted.
+
+Theorem C17_plumbing_counted_terminates :
+  forall (s : src) (k : snk) (n : N), sts_n s k n <> None.
+Proof. exact (@sts_n_total). Qed.
+Print Assumptions C17_plumbing_counted_terminates.
+
+(* source-to-sink, draining: everything up to the point where source or sink ended it reached the sink, in order *)
+Theorem C17_plumbing_drain :
+  forall (fuel : nat) (s : src) (k : snk) (r : dres) (s' : src) (k' : snk),
+         steady k ->
+         sts_drain_cbc fuel s k = Some (r, s', k') ->
+         exists (moved lost : list N) (e : errno),
+           r = DErr e /\
+           s_stream s = moved ++ lost ++ s_stream s' /\ k_got k' = k_got k ++ moved /\ (length lost <= 1)%nat.
+Proof. exact (@sts_drain_spec). Qed.
+Print Assumptions C17_plumbing_drain.
+
+Theorem C17_plumbing_drain_terminates :
+  forall (s : src) (k : snk), sts_drain s k <> None.
+Proof. exact (@sts_drain_total). Qed.
+Print Assumptions C17_plumbing_drain_terminates.
+
+(* one octet through *)
+Theorem C17_plumbing_one_octet :
+  forall (s : src) (k : snk) (r : dres) (s' : src) (k' : snk),
+         steady k ->
+         sts_cbc s k = (r, s', k') ->
+         steady k' /\
+         (exists moved lost : list N,
+            s_stream s = moved ++ lost ++ s_stream s' /\
+            k_got k' = k_got k ++ moved /\
+            (forall c : N, r = DOk c -> c = 1 /\ length moved = 1%nat /\ lost = []) /\
+            (forall e : errno, r = DErr e -> moved = [] /\ (length lost <= 1)%nat)).
+Proof. exact (@sts_cbc_spec). Qed.
+Print Assumptions C17_plumbing_one_octet.
+
+
+(* non-vacuity: a chunk driver that gives 2, then nothing, is interrupted, then gives the rest; a counted transfer into a sink that fails at the third octet *)
 Example C17_example :
   source_get_chunk {| s_octet := false; s_stream := [1;2;3;4;5;6]; s_script := [Give 2; Zero; Intr; Give 1]; s_calls := 0 |} 5
   = Some (DOk 5, [1;2;3;4;5],
           {| s_octet := false; s_stream := [6]; s_script := []; s_calls := 5 |}).
 Proof. vm_compute. reflexivity. Qed.
+Example C17_plumbing_example :
+  let k := {| k_octet := true; k_got := []; k_script := [Give 1; Give 1; Fail EIO]; k_calls := 0 |} in
+  steady k /\
+  match sts_n (src_plain false [1;2;3;4;5]) k 4 with
+  | Some (r, s', k') => (r, s_stream s', k_got k') = (DErr EIO, [4;5], [1;2])
+  | None => False
+  end.
+Proof. split; [repeat constructor; cbn; lia|vm_compute; reflexivity]. Qed.
